@@ -30,6 +30,13 @@ package main
 //	apiReadLoopCond         condition of the `for` of Conn.Read that fills c.input
 //	apiInterrupterCond      condition under which handshakeContext starts the interrupter goroutine
 //	                        (`ctx.Done() != nil`: every context that can be cancelled is watched)
+//	apiCloseInterlockStmts  the statements of Conn.Close up to and including `if x != 0 { … }` (normalised
+//	                        source): the compare-and-swap loop that sets the close bit WHATEVER the number of
+//	                        Writes in flight (`x|1`), and the early exit that only closes the transport when a
+//	                        Write is in flight — the model's `close` (branch `c.inflight.isSome`) transcribes
+//	                        exactly these
+//	apiWriteInterlockStmts  the statements of Conn.Write in front of `c.Handshake()`: the loop that refuses
+//	                        a closed connection and counts the call in (`x+2`), and the deferred `-2`
 
 import (
 	"go/ast"
@@ -118,4 +125,24 @@ func emitConnAPI(e *emitter, p *pkg) {
 		}
 	}
 	e.str("apiInterrupterCond", intCond)
+	// the Write / Close interlock on c.activeCall
+	var closeLock []string
+	for _, st := range body(p, "Conn.Close") {
+		closeLock = append(closeLock, p.src(st))
+		if is, ok := st.(*ast.IfStmt); ok && p.src(is.Cond) == "x != 0" {
+			break
+		}
+		if len(closeLock) >= 4 {
+			break
+		}
+	}
+	e.strList("apiCloseInterlockStmts", closeLock)
+	var writeLock []string
+	for _, st := range body(p, "Conn.Write") {
+		if strings.Contains(p.src(st), "c.Handshake()") || len(writeLock) >= 4 {
+			break
+		}
+		writeLock = append(writeLock, p.src(st))
+	}
+	e.strList("apiWriteInterlockStmts", writeLock)
 }
